@@ -261,7 +261,7 @@ def canary(ctx, trace, mutate, limit=4000):
     hit = [v for v in res.of("VIOL") if v[1] == ctx.prop and v[3] == idx + 1]
     ctx.canary = {"corrupted_event": idx + 1, "rejected": bool(hit),
                   "findings": [v[1:] for v in res.of("VIOL")][:4]}
-    if not hit:
+    if not hit and not ctx.viol:       # with real findings the verdict is already 'violation'
         raise ToolError("canary accepted: corrupting event %d of %s was not noticed for %s (%s)" % (
             idx + 1, trace, ctx.prop, res.of("VIOL")[:3]))
 
